@@ -3,6 +3,7 @@ package db
 import (
 	"context"
 	"fmt"
+	"time"
 
 	"github.com/couchbase/sync_gateway/auth"
 	"github.com/couchbase/sync_gateway/base"
@@ -46,6 +47,56 @@ func (n *simNode) oneShotChanges(user auth.User, chans base.Set, opts ChangesOpt
 		rows = append(rows, rowOf(e))
 	}
 	return rows, nil
+}
+
+// longpollChanges runs a longpoll request (Wait, non-continuous): it returns the first non-empty
+// batch, or nothing when timeout (simulated) passes first, as the REST handler does by cancelling.
+func (n *simNode) longpollChanges(user auth.User, chans base.Set, opts ChangesOptions, timeout time.Duration) ([]changeRow, error) {
+	coll, ctx := n.collection(user)
+	cctx, cancel := context.WithCancel(ctx)
+	defer cancel()
+	timer := time.AfterFunc(timeout, cancel)
+	defer timer.Stop()
+	opts.ChangesCtx = cctx
+	opts.Wait = true
+	feed, err := coll.MultiChangesFeed(ctx, chans, opts)
+	if err != nil {
+		return nil, err
+	}
+	var rows []changeRow
+	if feed == nil {
+		return rows, nil
+	}
+	for {
+		select {
+		case e, ok := <-feed:
+			if !ok {
+				return rows, nil
+			}
+			if e == nil {
+				continue // "caught up, waiting" marker
+			}
+			if e.Err != nil {
+				return rows, fmt.Errorf("changes feed error entry: %w", e.Err)
+			}
+			rows = append(rows, rowOf(e))
+		case <-cctx.Done():
+			// drain what is already there
+			for {
+				select {
+				case e, ok := <-feed:
+					if !ok {
+						return rows, nil
+					}
+					if e != nil && e.Err == nil {
+						rows = append(rows, rowOf(e))
+					}
+				default:
+					return rows, nil
+				}
+			}
+		}
+	}
 }
 
 func rowOf(e *ChangeEntry) changeRow {
